@@ -61,10 +61,10 @@ Record cfg := mkCfg {
 
 (* ONE SWITCH PER FINDING: set to true once the corresponding patch is committed in /repo. [coded] is the
    configuration the correspondence run compares with /repo's working tree. *)
-Definition fix1_export_guard : bool := false.
-Definition fix3_names_cap : bool := false.
-Definition fix4_bytes_guard : bool := false.
-Definition fix5_custom_readfull : bool := false.
+Definition fix1_export_guard : bool := true.
+Definition fix3_names_cap : bool := true.
+Definition fix4_bytes_guard : bool := true.
+Definition fix5_custom_readfull : bool := true.
 Definition coded : cfg :=
   mkCfg true fix1_export_guard fix3_names_cap fix4_bytes_guard fix5_custom_readfull 4294967295.  (* `sum > math.MaxUint32` *)
 
